@@ -1,3 +1,4 @@
+import Chartparse.Proofs.ReSound
 import Chartparse.Proofs.ReDispatch
 import Chartparse.Proofs.ReTE
 import Chartparse.Proofs.IntOf
@@ -143,5 +144,24 @@ theorem C07_index_value : (List.range 8).all (fun d => intOf [48 + d] == d) = tr
 /-- non-vacuity: an N line with a tab, full-width digits and trailing blanks -/
 example : decodeKind 0 ([9] ++ ([65297, 50] ++ ([32,61,32,78,32] ++ (55 :: 32 :: ([48, 57] ++ [32, 32])))))
     = some (.note 12 7 9) := by decide
+
+/-- **C07, star power ⇔**: whatever the shipped S recogniser accepts is a canonical `S 2` line, captures as written -/
+theorem C07_sp_sound (s : Str) (caps : Caps) (h : Gen.spRe.matchGroups s = some caps) :
+    ∃ p t l q, s = p ++ (t ++ ([32, 61, 32, 83, 32, 50, 32] ++ (l ++ q))) ∧ AllIn .space p ∧ AllIn .digit t ∧ t ≠ [] ∧
+      AllIn .digit l ∧ l ≠ [] ∧ AllIn .space q ∧ caps = [(2, l), (1, t)] := by
+  rw [matchGroups_of_norm_eq gen_sp_is_template] at h; exact Chartparse.Rx.sp_sound s caps h
+
+/-- **C07, track event ⇔**: whatever the shipped E recogniser accepts is `<tick> = E <word>` with a word free of U+0020 -/
+theorem C07_te_sound (s : Str) (caps : Caps) (h : Gen.teRe.matchGroups s = some caps) :
+    ∃ p t w q, s = p ++ (t ++ ([32, 61, 32, 69, 32] ++ (w ++ q))) ∧ AllIn .space p ∧ AllIn .digit t ∧ t ≠ [] ∧
+      AllIn (.notLit 32) w ∧ AllIn .space q ∧ caps = [(2, w), (1, t)] := by
+  rw [matchGroups_of_norm_eq (gen_te_is_template.trans teEv_norm.symm)] at h; exact Chartparse.Rx.te_sound s caps h
+
+/-- **C07, named rejection**: `<tick> = E two words` never produces a track event -/
+theorem C07_two_words_rejected (p t w1 w2 : Str) (hp : AllIn .space p) (ht : AllIn .digit t) (ht0 : t ≠ [])
+    (hw2 : ∃ x ∈ w2, CSet.space.test x = false) :
+    Gen.teRe.matchGroups (p ++ (t ++ ([32, 61, 32, 69, 32] ++ (w1 ++ 32 :: w2)))) = none := by
+  rw [matchGroups_of_norm_eq (gen_te_is_template.trans teEv_norm.symm)]
+  exact Chartparse.Rx.te_two_words_rejected p t w1 w2 hp ht ht0 hw2
 
 end Chartparse.Props.C07
